@@ -464,6 +464,9 @@ type slot struct {
 	// Companion adds, to the service carrying the fragment, a benign optional dependency on a
 	// profile-disabled service (a rule must not be skipped because another one was satisfied).
 	Companion bool `json:"companion,omitempty"`
+	// XName gives the resource carrying the fragment a name that starts with `x-` (a legal resource
+	// name; only keys *beside* the resources are extensions)
+	XName bool `json:"x_name,omitempty"`
 }
 
 // doc collects the files of a case while slots are added.
@@ -569,6 +572,9 @@ func (d *doc) add(i int, sl slot) {
 		}
 	default:
 		name = "r" + name
+		if sl.XName {
+			name = "x-" + name
+		}
 		start := clone(v.setup).(M)
 		switch sl.Placement {
 		case plMain:
@@ -750,6 +756,9 @@ func run(s *core.Shard) {
 					if r.scope == scService && pl != plInclude {
 						pair(s, id+"/companion", slot{Rule: r.id, Variant: vi, Placement: pl, Companion: true})
 					}
+					if r.scope != scService && r.scope != scNew {
+						pair(s, id+"/x-name", slot{Rule: r.id, Variant: vi, Placement: pl, XName: true})
+					}
 				}
 			}
 		}
@@ -779,7 +788,7 @@ func run(s *core.Shard) {
 			if !applicable(r.scope, pl) {
 				pl = plMain
 			}
-			sl := slot{Rule: r.id, Variant: rng.Intn(len(r.variants)), Bad: rng.Intn(4) == 0, Placement: pl, Companion: rng.Intn(3) == 0}
+			sl := slot{Rule: r.id, Variant: rng.Intn(len(r.variants)), Bad: rng.Intn(4) == 0, Placement: pl, Companion: rng.Intn(3) == 0, XName: rng.Intn(5) == 0}
 			if sl.Bad {
 				broken = append(broken, r.id)
 			}
